@@ -1,7 +1,9 @@
 (* Model/CsvBook.v — xls2json_backends.csv_to_dict.process_csv_data (with first_column_as_sheet_name), over the rows that csv.reader
    delivers (the reader itself is Spec/Csv.v): a row whose first cell is filled names a sheet, the first row with content under it is
-   the header row, later rows are data; only supported sheets keep rows (fix bc15c5b); every name is noted for the spelling check. *)
-Require Import PX.Base.Str PX.Base.PyStr PX.Model.Warnings PX.Gen.Warn.
+   the header row, later rows are data; only supported sheets keep rows (fix bc15c5b); every name is noted for the spelling check.
+   The header row goes through get_excel_column_headers (Model/Backends.v) as a spreadsheet's does: empty header cells are skipped,
+   runs of spaces collapsed, a duplicate header is an error; the only sheet of a workbook is the survey whatever its name. *)
+Require Import PX.Base.Str PX.Base.PyStr PX.Model.Warnings PX.Gen.Warn PX.Model.Backends PX.Gen.Backends.
 Local Open Scope N_scope.
 
 Definition dictrow := list (str * str).
@@ -19,7 +21,7 @@ Definition nonempty (s : str) : bool := match s with [] => false | _ => true end
 Definition first_col (row : list str) : option str * option (list str) :=
   match row with
   | [] => (None, None)
-  | [x] => (Some x, None)
+  | [x] => (Some (py_strip x), None)
   | x :: rest =>
       let n := py_strip x in
       let content := map py_strip rest in
@@ -28,18 +30,21 @@ Definition first_col (row : list str) : option str * option (list str) :=
 (* the dict comprehension over zip(headers, cells): a repeated header keeps its first place and takes the last filled value *)
 Fixpoint dput (k v : str) (d : dictrow) : dictrow :=
   match d with [] => [(k, v)] | (k', v') :: r => if seqb k k' then (k, v) :: r else (k', v') :: dput k v r end.
-Fixpoint zip_filled_acc (acc : dictrow) (hs cs : list str) : dictrow :=
+Fixpoint zip_filled_acc (acc : dictrow) (hs : list (option str)) (cs : list str) : dictrow :=
   match hs, cs with
-  | h :: hs', c :: cs' => zip_filled_acc (if nonempty c then dput h c acc else acc) hs' cs'
+  | h :: hs', c :: cs' => zip_filled_acc (match h with Some k => if nonempty c then dput k c acc else acc | None => acc end) hs' cs'
   | _, _ => acc
   end.
-Definition zip_filled (hs cs : list str) : dictrow := zip_filled_acc [] hs cs.
+Definition zip_filled (hs : list (option str)) (cs : list str) : dictrow := zip_filled_acc [] hs cs.
+Definition opt_cell (c : str) : option str := if nonempty c then Some c else None.      (* is_empty on a stripped cell *)
+Definition somes (l : list (option str)) : list str := flat_map (fun x => match x with Some y => [y] | None => [] end) l.
 (* _list_to_dict_list: the header row becomes the keys of one dict, so a repeated header keeps its first place only *)
 Fixpoint dedup (seen : list str) (l : list str) : list str :=
   match l with [] => [] | x :: r => if existsb (seqb x) seen then dedup seen r else x :: dedup (x :: seen) r end.
 Definition supported (n : option str) : bool := match n with Some s => mem s SUPPORTED_SHEET_NAMES | None => false end.
-Record st := { bk : book; sheet : option str; headers : option (list str) }.
-Definition step (lower : str -> str) (s : st) (row : list str) : st :=
+Record st := { bk : book; sheet : option str; headers : option (list (option str)); err : option str }.
+Definition step (lower : str -> str) (only_one : bool) (s : st) (row : list str) : st :=
+  match err s with Some _ => s | None =>
   let '(maybe, content) := first_col row in
   let s1 :=
     match maybe with
@@ -47,19 +52,24 @@ Definition step (lower : str -> str) (s : st) (row : list str) : st :=
         if nonempty n && negb (bmem n (bk s)) then
           let names := match bget k_sheet_names (bk s) with Some (VNames l) => l | _ => [] end in
           let b1 := bput k_sheet_names (VNames (names ++ [n])) (bk s) in
-          let ln := lower n in
-          {| bk := (if mem ln SUPPORTED_SHEET_NAMES then bput ln (VRows []) b1 else b1); sheet := Some ln; headers := None |}
-        else {| bk := bk s; sheet := Some n; headers := None |}
+          let ln0 := lower n in
+          let ln := if negb (mem ln0 SUPPORTED_SHEET_NAMES) && only_one then s_survey else ln0 in
+          {| bk := (if mem ln SUPPORTED_SHEET_NAMES then bput ln (VRows []) b1 else b1); sheet := Some ln; headers := None; err := None |}
+        else {| bk := bk s; sheet := Some n; headers := None; err := None |}
     | None => s
     end in
   match content, sheet s1 with
   | Some c, Some sn =>
       if mem sn SUPPORTED_SHEET_NAMES then
         match headers s1 with
-        | None => {| bk := bput (header_key sn) (VHeader (dedup [] c)) (bk s1); sheet := sheet s1; headers := Some c |}
+        | None =>
+            match get_excel_column_headers py_strip (N.to_nat MAX_ADJACENT_EMPTY_COLUMNS) (map opt_cell c) with
+            | Ok hs => {| bk := bput (header_key sn) (VHeader (dedup [] (somes hs))) (bk s1); sheet := sheet s1; headers := Some hs; err := None |}
+            | PyxErr m => {| bk := bk s1; sheet := sheet s1; headers := headers s1; err := Some m |}
+            end
         | Some hs =>
             let rows := match bget sn (bk s1) with Some (VRows r) => r | _ => [] end in
-            {| bk := bput sn (VRows (rows ++ [zip_filled hs c])) (bk s1); sheet := sheet s1; headers := headers s1 |}
+            {| bk := bput sn (VRows (rows ++ [zip_filled hs c])) (bk s1); sheet := sheet s1; headers := headers s1; err := None |}
         end
       else s1
   | None, Some sn =>
@@ -68,18 +78,27 @@ Definition step (lower : str -> str) (s : st) (row : list str) : st :=
       | None, _ :: _ :: _, Some _ =>
           if mem sn SUPPORTED_SHEET_NAMES then
             let rows := match bget sn (bk s1) with Some (VRows r) => r | _ => [] end in
-            {| bk := bput sn (VRows (rows ++ [[]])) (bk s1); sheet := sheet s1; headers := headers s1 |}
+            {| bk := bput sn (VRows (rows ++ [[]])) (bk s1); sheet := sheet s1; headers := headers s1; err := None |}
           else s1
       | _, _, _ => s1
       end
   | _, _ => s1
-  end.
+  end end.
 (* below the last row of a sheet blank rows mean nothing: they are dropped at the end *)
 Fixpoint drop_blank_front (l : list dictrow) : list dictrow := match l with [] :: r => drop_blank_front r | _ => l end.
 Definition trim_rows (l : list dictrow) : list dictrow := rev (drop_blank_front (rev l)).
 Definition trim_val (v : val) : val := match v with VRows r => VRows (trim_rows r) | _ => v end.
-Definition csv_book (lower : str -> str) (rows : list (list str)) : book :=
-  map (fun e => (fst e, trim_val (snd e))) (bk (fold_left (step lower) rows {| bk := [(k_sheet_names, VNames [])]; sheet := None; headers := None |})).
+(* all_names: the distinct non-empty first-column names of the whole text *)
+Definition sheet_names_of (rows : list (list str)) : list str :=
+  dedup [] (flat_map (fun row => match fst (first_col row) with Some n => if nonempty n then [n] else [] | None => [] end) rows).
+Definition only_one_sheet (rows : list (list str)) : bool := Nat.eqb (length (sheet_names_of rows)) 1.
+Definition init_st : st := {| bk := [(k_sheet_names, VNames [])]; sheet := None; headers := None; err := None |}.
+Definition csv_book (lower : str -> str) (rows : list (list str)) : res book :=
+  let s := fold_left (step lower (only_one_sheet rows)) rows init_st in
+  match err s with
+  | Some m => PyxErr m
+  | None => Ok (map (fun e => (fst e, trim_val (snd e))) (bk s))
+  end.
 
 (* renderer for the correspondence check *)
 Definition show_val (v : val) : str :=
@@ -88,4 +107,5 @@ Definition show_val (v : val) : str :=
   | VHeader h => [72] ++ join [1] h
   | VRows rows => [82] ++ flat_map (fun r => flat_map (fun kv => fst kv ++ [61] ++ snd kv ++ [1]) r ++ [3]) rows
   end.
-Definition show_book (b : book) : str := flat_map (fun e => fst e ++ [2] ++ show_val (snd e) ++ [4]) b.
+Definition show_book (b : res book) : str :=
+  match b with Ok b => flat_map (fun e => fst e ++ [2] ++ show_val (snd e) ++ [4]) b | PyxErr m => [69] ++ m end.
